@@ -62,6 +62,14 @@ fn main() {
             vec_codec::sweep_varint(&mut rep, args.num("threads", 16) as u32, args.num("shift", 0) as u32);
             rep.finish(args.out().as_deref())
         },
+        "cgi-vectors" => {
+            let prop = args.get("prop").unwrap_or("C19").to_string();
+            let mut rep = Report::new(&prop);
+            vec_codec::run_cgi_vectors(&prop, stdin.lock(), args.log(), &mut rep);
+            rep.finish(args.out().as_deref())
+        },
+        "dump-reasons" => { vec_codec::dump_reasons(&PathBuf::from(args.get("file").unwrap_or("/verif/out/reasons.ndjson"))); 0 },
+        "dump-names" => { vec_codec::dump_names(&PathBuf::from(args.get("file").unwrap_or("/verif/out/names.ndjson")), args.num("limit", 40) as usize); 0 },
         "sweep-bufsize" => {
             let mut rep = Report::new("C06");
             vec_codec::sweep_bufsize(&mut rep, args.num("max", 70000) as usize);
@@ -126,6 +134,8 @@ fn main() {
             match r["kind"].as_str().unwrap_or("") {
                 "vector" => vec_codec::check_vector(&mut rep, &prop, &r["vector"]),
                 "rp-edge" => rp::replay_file(&prop, r, &mut rep),
+                "cgi-vector" => { let v = &r["vector"]; let mm = if v["t"] == "vn" { vec_codec::check_name_vector(v).0 } else { vec_codec::check_response_vector(v) };
+                    for what in mm { rep.violation(&prop, &what, r.clone()); } },
                 "rp-bytes" => rp::replay_bytes(&prop, r, &mut rep),
                 "sp-edge" => sp::replay_file(&prop, r, &mut rep),
                 "sp-bytes" => sp::replay_bytes(&prop, r, &mut rep),
